@@ -326,7 +326,7 @@ def check_search(case):
     parent = None
     prior = None
     if case.get("prior_rows") is not None:
-        parent = _Parent()
+        parent = None if case.get("no_parent") else _Parent()
         prior = [dict(r) for r in case["prior_rows"]]
         runs.append(("prior", prior))
     rows = [dict(r) for r in case["rows"]]
@@ -915,6 +915,10 @@ def search_cases(unit, tier):
                 for c in conds:
                     for rkc in (False, True):
                         yield {"kind": "search", "prior_rows": prior, "rows": rows, "row_keys_change": rkc, "kwargs": [c]}
+                        # the same two-call history WITHOUT a parent object (plain lists): nothing may be carried from
+                        # one call to the next through module-level state either
+                        yield {"kind": "search", "prior_rows": prior, "rows": rows, "row_keys_change": rkc, "kwargs": [c],
+                               "no_parent": True}
     else:
         raise ValueError(part)
 
